@@ -5,9 +5,9 @@ PROPERTY = 'C02'
 def h(n):
     return dict(src='c02_multi.cc', defines=['NCHILD=%d' % n, 'OTEL_INTERNAL_LOG_LEVEL=0'], models=['libc.c', 'cxxrt.c', 'stdstring.c', 'single_threaded.c', 'sched.c'])
 HARNESSES = {'c02_n2': h(2), 'c02_n3': h(3), 'c02_n1': h(1)}
-QUERIES = [dict(name='multi_processor_aggregate_n%d' % n, harness='c02_n%d' % n, entry='h_multi_aggregate', unwind=6, timeout=600, tier='quick' if n == 2 else 'thorough',
+QUERIES = [dict(name='multi_processor_aggregate_n%d' % n, harness='c02_n%d' % n, entry='h_multi_aggregate', unwind=6, timeout=600, tier='quick' if n in (2, 3) else 'thorough',
                 shape='%d child processors whose ForceFlush/Shutdown results are symbolic' % n) for n in (1, 2, 3)]
-BOUNDS = ['MultiSpanProcessor with 1..3 children (quick: 2); one ForceFlush and one Shutdown']
+BOUNDS = ['MultiSpanProcessor with 1..3 children (quick: 2 and 3); one ForceFlush and one Shutdown']
 OUTSIDE = ['BatchSpanProcessor / BatchLogRecordProcessor ForceFlush and Shutdown themselves (ticket protocol, drain, join): the object-level encoding of the batch processors (std::vector<unique_ptr>, make_shared control block, condition variables, worker hand-off) ran out of memory (12-24 GB) in CBMC even for queue size 1 - measured, see DESIGN.md 6; this clause of C02 is therefore NOT decided',
            'periodic metric reader, TracerProvider/LoggerProvider/MeterProvider forwarding', 'termination (liveness)', 'MultiLogRecordProcessor (std::vector based, same aggregation shape)']
 ASSUMPTIONS = ['operator new never fails']
